@@ -2003,15 +2003,15 @@ package ring
 //@   ensures implies(Level >= 2, len(pol.Coeffs[2]) == N && cap(pol.Coeffs[2]) == N && !samearray(pol.Coeffs[1], pol.Coeffs[2]) && !samearray(pol.Coeffs[0], pol.Coeffs[2]))
 
 // Horner evaluation of a vector of polynomials at a public point (Shamir share generation, C15):
-// safety contract - every index is in range, every callee gets its precondition and no machine
-// product or sum can wrap (a running power of the point kept in a uint64 would).  The invariant is
-// direction-neutral on purpose.  Poly.Copy (trusted) may change the length of the LOCAL header p2
+// safety contract - every index is in range and every callee gets its precondition (the value is the
+// business of the bounded instance #deg2 above).  The invariant fits
+// both ways of indexing a downward Horner loop (p1[i-1] while i > 0, p1[i] while i >= 0).  Poly.Copy (trusted) may change the length of the LOCAL header p2
 // to the level of the source; both lengths are required above r.level, so either reading is covered.
 //@ func Ring.EvalPolyScalar
 //@   property C15
 //@   requires ringwf(r) && len(p1) >= 1 && r.level < len(p2.Coeffs)
 //@   requires forall(k, 0, len(p1), r.level < len(p1[k].Coeffs))
-//@   loop 0 invariant 0 <= i && i <= len(p1)
+//@   loop 0 invariant 0 - 1 <= i && i <= len(p1) - 1
 
 // A decoder stores what it decodes in the caller's object (C08; finding F41): see /verif/cmd/lvc/fieldordercheck.go
 //@ decodes Poly.ReadFrom
